@@ -64,11 +64,17 @@ Walk(c, k, cur, nclaims, prevclaims) ==
      ELSE IF Expand(st.conv_substituted) # Expand(NInst(st.rule.p, <<<<0, ir[0]>>, <<1, ir[1]>>, <<2, ir[2]>>>>)) THEN "conv-commute"
      ELSE Walk(c, k + 1, ir[2], nclaims + 1, ExpSeq(st.claims_after))
 
+\* every rule with a ground substitution for all of its variables: instantiate(convert(rule), convert(sigma)) = convert(rule sigma)
+ConvCommutes(cv) ==
+  LET ids == [k \in 1..Len(cv.subst) |-> cv.subst[k][1]]
+      vals == [k \in 1..Len(cv.subst) |-> Expand(cv.subst[k][2])]
+  IN InstNoCheck(Expand(cv.rule), ids, vals) = Expand(cv.conv_substituted)
 Injective(vm) == \A a \in 1..Len(vm) : \A b \in 1..Len(vm) : (vm[a][1] = vm[b][1]) = (vm[a][2] = vm[b][2])
 CheckCase(i) ==
   LET c == Cases[i] IN
   IF c.out # "ok" THEN "definition-refused"
   ELSE IF \E k \in 1..Len(c.convs) : ~Injective(c.convs[k].varmap) THEN "varmap"
+  ELSE IF \E k \in 1..Len(c.convs) : c.convs[k].has /\ ~ConvCommutes(c.convs[k]) THEN "conv-commute"
   ELSE LET w == Walk(c, 1, Expand(c.init), 0, <<>>)
            allok == \A k \in 1..Len(c.steps) : c.steps[k].out = "ok" IN
        IF w # "" THEN w
